@@ -3,8 +3,16 @@
 
 stdin : {"cases": [CASE...], "emit": "coq" | "py"}
   CASE = layout description produced by props/C06.py (grid kind, shape, events per bin, storage order,
-         gaps, view, dtypes, geometry kind, masks, programs [(target, scatter, inelastic mode)], seed);
+         gaps, view, dtypes, geometry kind, masks, programs [(target, scatter, inelastic mode, call history)], seed);
          every number of the input (tof, weights, geometry, masks) is drawn from the case seed here.
+  A program may carry a CALL HISTORY `hist` = {kind, pre: [[origin, target], ...], origin, discard, precomputed}:
+         the object handed to the OBSERVED conversion (hist.origin -> target) is then not the fresh object but
+         the result of the earlier conversions `pre` (re-conversion to the same target, a conversion to another
+         target from tof, a chain tof -> wavelength -> energy ...; DataArray or Dataset), or the fresh object after
+         earlier conversions whose results were discarded (`discard`), or events that were "loaded" with a
+         precomputed target coordinate (`precomputed`: the dense kernel's value stored in the event buffer).
+         Everything below (dense reference, layout, deep snapshot, preservation) is about the OBSERVED call and
+         ITS input.
 For every (case, program) this script
   * builds the binned input (sc.bins over one event buffer, possibly a slice / transpose of a larger parent),
   * runs scippneutron.convert on it,
@@ -281,13 +289,15 @@ def gather(var, gdims, cell):
     return sc.array(dims=['event'], values=vals, unit=var.unit, dtype=var.dtype)
 
 
-def dense_convert(tof_var, extra_event, geom, target, scatter, value_name):
-    n = tof_var.sizes['event']
-    coords = {'tof': tof_var}
-    coords.update(extra_event)
+def dense_convert(origin_var, extra_event, geom, target, scatter, value_name, origin='tof'):
+    """the dense formula: a 1-d table with the event's ORIGIN coordinate next to its pixel's geometry (and
+    pulse_time), nothing else - in particular no coordinate left over from an earlier conversion"""
+    n = origin_var.sizes['event']
+    coords = dict(extra_event)
+    coords[origin] = origin_var
     coords.update(geom)
     dense = sc.DataArray(sc.zeros(dims=['event'], shape=[n], unit='counts'), coords=coords)
-    out = scn.convert(dense, 'tof', target, scatter=scatter)
+    out = scn.convert(dense, origin, target, scatter=scatter)
     return out.coords[value_name]
 
 
@@ -331,9 +341,40 @@ def layout_of(da, gdims_parent):
             'grid': grid, 'ncell': ncell, 'assign': assign, 'cell': cell, 'cellno': cellno}
 
 
+def add_precomputed(parent, gdims_parent, target, scatter):
+    """events "loaded with a precomputed target coordinate": the dense kernel's value of every event that lies in
+    a bin (NaN elsewhere) is stored in the parent's event buffer under the target's name"""
+    lay = layout_of(parent, gdims_parent)
+    c = parent.bins.constituents
+    buf = c['data']
+    nbuf = lay['nbuf']
+    J = np.nonzero(lay['assign'])[0]
+    cell = lay['cell'][J] - 1
+    geom = {n: gather(parent.coords[n], lay['gdims'], cell) for n in GEOM_NAMES if n in parent.coords}
+    extra = {'pulse_time': take(buf.coords['pulse_time'], J)}
+    dval = dense_convert(take(buf.coords['tof'], J), extra, geom, target, scatter, target)
+    if dval.dtype == sc.DType.vector3:
+        vals = np.full((nbuf, 3), np.nan)
+        vals[J] = np.asarray(dval.values).reshape(-1, 3)
+        var = sc.vectors(dims=['event'], values=vals, unit=dval.unit)
+    else:
+        vals = np.full(nbuf, np.nan, dtype=np.asarray(dval.values).dtype)
+        vals[J] = np.asarray(dval.values)
+        var = sc.array(dims=['event'], values=vals, unit=dval.unit, dtype=dval.dtype)
+    parent.bins.coords[target] = sc.bins(begin=c['begin'], end=c['end'], dim='event', data=var)
+
+
 def run_program(case, prog, emit):
     out = {'tag': prog['tag']}
+    hist = prog.get('hist') or None
+    target, scatter = prog['target'], prog['scatter']
+    origin = hist.get('origin', 'tof') if hist else 'tof'
+    if hist and hist.get('precomputed'):
+        # event files with a precomputed coordinate carry no histogram edges of the raw coordinate
+        case = dict(case, edges=None)
     parent, info = build_parent(case, prog)
+    if hist and hist.get('precomputed'):
+        add_precomputed(parent, info['gdims'], target, scatter)
     parent_snap = parent.copy(deep=True)
     da = apply_view(parent, case.get('view'))
     inp = da
@@ -342,22 +383,43 @@ def run_program(case, prog, emit):
         # what the Dataset item exposes IS the input (a coordinate whose dim is not a dim of the item, e.g. the
         # 2-element tof edges left over from integer indexing, is not part of it)
         da = inp['events']
+    # ---- the call history: earlier conversions whose result is the input of the observed one (or is discarded)
+    if hist:
+        for step_no, (o1, t1) in enumerate(hist.get('pre', [])):
+            before = inp.copy(deep=True)
+            try:
+                step = scn.convert(inp, o1, t1, scatter=scatter)
+            except Exception as ex:
+                out['error'] = f'{type(ex).__name__}: {str(ex)[:300]}'
+                out['error_in'] = f'history step {step_no}: convert({o1} -> {t1})'
+                out['layout'] = layout_of(da, info['gdims'])
+                return out
+            if not sc.identical(inp, before, equal_nan=True):
+                out.setdefault('pre_flags', []).append(f'input-modified-by-history-step-{step_no}')
+            if not hist.get('discard'):
+                inp = step
+        da = inp['events'] if case.get('dataset') else inp
     snap = da.copy(deep=True)
+    snap_event_names = (sorted(da.bins.coords), sorted(da.bins.masks), sorted(da.coords), sorted(da.masks))
     lay = layout_of(da, info['gdims'])
-    target, scatter = prog['target'], prog['scatter']
-    value_name = 'tof' if target in GEO_ONLY else target
+    value_name = origin if target in GEO_ONLY else target
+    # the one dim of the input that is not a pixel dim: the tof dim of the fresh object, whatever it is called now
+    tdims = [d for d in da.dims if d not in info['gdims']]
     try:
-        res = scn.convert(inp, 'tof', target, scatter=scatter)
+        res = scn.convert(inp, origin, target, scatter=scatter)
     except Exception as ex:  # the conversion must work for every layout
         out['error'] = f'{type(ex).__name__}: {str(ex)[:300]}'
         out['layout'] = lay
         return out
     r = res['events'] if case.get('dataset') else res
-    flags = []
-    # ---- input untouched
+    flags = list(out.pop('pre_flags', []))
+    # ---- input untouched (deep snapshot; the SET of event / bin coordinates and masks is part of it)
+    now_names = (sorted(da.bins.coords), sorted(da.bins.masks), sorted(da.coords), sorted(da.masks))
+    if now_names != snap_event_names:
+        flags.append('input-coordinate-set-modified')
     if not sc.identical(da, snap, equal_nan=True) or not sc.identical(parent, parent_snap, equal_nan=True):
         flags.append('input-modified')
-    # ---- dims: only the tof dim may be renamed
+    # ---- dims: only the tof dim (under its current name) may be renamed
     ren = {}
     if len(r.dims) != len(da.dims):
         flags.append('dims')
@@ -365,7 +427,7 @@ def run_program(case, prog, emit):
         for din, dout in zip(da.dims, r.dims):
             if din != dout:
                 ren[dout] = din
-        if any(v != 'tof' for v in ren.values()):
+        if any(v not in tdims for v in ren.values()):
             flags.append('dims')
     rr = r.rename_dims(ren) if ren and 'dims' not in flags else r
     buf_in = da.bins.constituents['data']
@@ -387,11 +449,11 @@ def run_program(case, prog, emit):
             if name in rr.masks and not sc.identical(rr.masks[name], da.masks[name]):
                 flags.append('mask-' + name)
         for name in da.coords:
-            if name == 'tof':
+            if name == origin:
                 continue
             if name not in rr.coords or not sc.identical(rr.coords[name], da.coords[name], equal_nan=True):
                 flags.append('coord-' + name)
-        if 'tof' in da.coords and 'tof' in rr.coords and not sc.identical(rr.coords['tof'], da.coords['tof']):
+        if origin in da.coords and origin in rr.coords and not sc.identical(rr.coords[origin], da.coords[origin]):
             flags.append('coord-tof-edges')
     if value_name not in r.bins.coords:
         flags.append('no-event-coordinate')
@@ -399,10 +461,10 @@ def run_program(case, prog, emit):
         out['layout'] = lay
         return out
     # ---- elem_unit / elem_dtype select the buffer's unit / dtype
-    tofc = da.bins.coords['tof']
-    if elem_unit(tofc) != buf_in.coords['tof'].unit or elem_dtype(tofc) != buf_in.coords['tof'].dtype \
+    tofc = da.bins.coords[origin]
+    if elem_unit(tofc) != buf_in.coords[origin].unit or elem_dtype(tofc) != buf_in.coords[origin].dtype \
             or elem_unit(da.data) != buf_in.unit or elem_dtype(da.data) != buf_in.dtype \
-            or elem_unit(buf_in.coords['tof']) != buf_in.coords['tof'].unit:
+            or elem_unit(buf_in.coords[origin]) != buf_in.coords[origin].unit:
         flags.append('elem-unit-dtype')
     # ---- dense reference on the events that lie in a bin
     J = np.nonzero(lay['assign'])[0]
@@ -412,7 +474,7 @@ def run_program(case, prog, emit):
     oval = obuf.coords[value_name]
     dval = None
     try:
-        dval = dense_convert(take(buf_in.coords['tof'], J), extra, geom, target, scatter, value_name)
+        dval = dense_convert(take(buf_in.coords[origin], J), extra, geom, target, scatter, value_name, origin)
     except Exception as ex:
         flags.append('dense-raises-' + type(ex).__name__)
     nch = 3 if oval.dtype == sc.DType.vector3 else 1
@@ -467,7 +529,7 @@ def run_program(case, prog, emit):
         flags.append('bin-indices')
     # ---- bin edges: converted with the same function
     edge = None
-    if 'tof' in da.coords and target not in GEO_ONLY and target not in EVENT_ONLY:
+    if origin in da.coords and target not in GEO_ONLY and target not in EVENT_ONLY:
         if value_name not in r.coords:
             flags.append('no-edge-coordinate')
         else:
@@ -480,7 +542,7 @@ def run_program(case, prog, emit):
             else:
                 eout = eout.transpose(eorder).copy()
                 esz = dict(eout.sizes)
-                ein = da.coords['tof']
+                ein = da.coords[origin]
                 ein_b = ein.broadcast(sizes=esz).copy() if set(ein.dims) != set(eorder) else ein.transpose(eorder).copy()
                 zero = sc.zeros(sizes=esz, dtype='int64', unit=None)
                 ecell = np.asarray((zero + lay['cellno']).values).reshape(-1)
@@ -499,7 +561,8 @@ def run_program(case, prog, emit):
                 eextra = {'pulse_time': sc.array(dims=['event'], values=np.zeros(ne), unit=ein.unit)}
                 edense = None
                 try:
-                    edense = dense_convert(flat_in, eextra if target == 'time_at_sample' else {}, egeom, target, scatter, value_name)
+                    edense = dense_convert(flat_in, eextra if target == 'time_at_sample' else {}, egeom, target, scatter,
+                                           value_name, origin)
                 except Exception as ex:
                     flags.append('edge-dense-raises-' + type(ex).__name__)
                 if edense is not None:
@@ -512,17 +575,35 @@ def run_program(case, prog, emit):
                     edge = {'egrid': egrid, 'ecell': ints(ecell),
                             'eout': coq_list([coq_list(ch) for ch in channels_of(flat_out)]),
                             'edense': coq_list([coq_list(ch) for ch in channels_of(edense)]), 'n': ne}
-    elif 'tof' in da.coords and target in GEO_ONLY:
+    elif origin in da.coords and target in GEO_ONLY:
         pass  # the unchanged edge coordinate is covered by the flag coord-tof-edges above
     out['flags'] = flags
     out['n_in_bins'] = int(J.size)
     out['layout'] = lay
+    out['history'] = hist['kind'] if hist else None
+    out['target_preexists'] = bool(value_name != origin and value_name in buf_in.coords)
     if emit == 'coq':
         wv = obuf.variances
+        # the result's event ids as indices into the INPUT's buffer (the ids are the fresh parent's buffer indices;
+        # the input of a later call of a history may be scipp's compacted copy of a slice)
+        oid = '[]'
+        if 'event_id' in obuf.coords and 'event_id' in buf_in.coords:
+            ids_in = np.asarray(buf_in.coords['event_id'].values)
+            if np.array_equal(ids_in, np.arange(ids_in.size)):
+                oid = ints(np.asarray(obuf.coords['event_id'].values))
+            else:
+                where = {int(v): t for t, v in enumerate(ids_in.tolist())}
+                oid = ints([where.get(int(v), ids_in.size + 1) for v in np.asarray(obuf.coords['event_id'].values).tolist()])
+        # an event coordinate named like the target that the input ALREADY carries (per input buffer index)
+        prev = '[]'
+        if out['target_preexists'] and buf_in.coords[value_name].dtype == oval.dtype:
+            prev = coq_list([coq_list(ch) for ch in channels_of(buf_in.coords[value_name])])
+        if hist:
+            out['own_layout'] = layout_coq(lay, buf_in)
         out['coq'] = {
             'dense': coq_list([coq_list(ch) for ch in dense_ch]),
             'obegin': ints(ob), 'oend': ints(oe),
-            'oid': ints(np.asarray(obuf.coords['event_id'].values)) if 'event_id' in obuf.coords else '[]',
+            'oid': oid, 'prev': prev,
             'oval': coq_list([coq_list(ch) for ch in channels_of(oval)]),
             'ow': coq_list(fb_list(np.asarray(obuf.values))),
             'ov': coq_list(fb_list(np.asarray(wv)) if wv is not None else ['NoV'] * obuf.sizes['event']),
@@ -574,7 +655,11 @@ def main():
                 pr = {'tag': prog['tag'], 'harness_error': f'{type(ex).__name__}: {ex}',
                       'trace': traceback.format_exc()[-1500:]}
             lay = pr.pop('layout', None)
-            if lay is not None and 'layout' not in cres:
+            if lay is not None and 'summary_any' not in cres:
+                cres['summary_any'] = {'dims': lay['dims'], 'shape': lay['shape'], 'nbuf': lay['nbuf'],
+                                       'bin_sizes': (lay['end'] - lay['begin']).tolist(), 'grid': lay['grid'],
+                                       'begin': lay['begin'].tolist()}
+            if lay is not None and 'layout' not in cres and not prog.get('hist'):
                 da, _ = build_parent(case, prog)
                 da = apply_view(da, case.get('view'))
                 cres['layout'] = layout_coq(lay, da.bins.constituents['data']) if emit == 'coq' else {}
@@ -582,6 +667,9 @@ def main():
                                    'bin_sizes': (lay['end'] - lay['begin']).tolist(), 'grid': lay['grid'],
                                    'begin': lay['begin'].tolist()}
             cres['programs'].append(pr)
+        sa = cres.pop('summary_any', None)
+        if 'summary' not in cres and sa is not None:
+            cres['summary'] = sa
         results.append(cres)
     print('RESULT ' + json.dumps({'cases': results, 'graph_keys': graph_keys(), 'scipp': sc.__version__}))
 
